@@ -219,6 +219,9 @@ pub struct Layout2 {
     pub single: BTreeMap<u8, u16>,
     pub double: BTreeMap<u8, (u8, Vec<u16>)>,
     pub deltas: BTreeMap<u8, u16>, // idDelta per lead byte (0 key = sub-header 0)
+    /// sub-header 0 covers only the span of the one-byte codes in use (firstCode != 0, entryCount < 256)
+    /// instead of 0..=255; bytes outside the span are unmapped either way
+    pub trim0: bool,
 }
 
 impl Layout2 {
@@ -250,7 +253,12 @@ impl Layout2 {
         let mut arrays: Vec<Vec<u16>> = Vec::new();
         let d0 = self.deltas.get(&0).copied().unwrap_or(0);
         let mut a0 = Vec::new();
-        for b in 0..256u32 {
+        let singles: Vec<u8> = self.single.keys().copied().filter(|b| !self.double.contains_key(b)).collect();
+        let (first0, count0) = match (self.trim0, singles.first(), singles.last()) {
+            (true, Some(&lo), Some(&hi)) => (lo as u32, hi as u32 - lo as u32 + 1),
+            _ => (0u32, 256u32),
+        };
+        for b in first0..first0 + count0 {
             let g = if self.double.contains_key(&(b as u8)) { 0 } else { self.single.get(&(b as u8)).copied().unwrap_or(0) };
             a0.push(if g == 0 { 0 } else { g.wrapping_sub(d0) });
         }
@@ -264,7 +272,7 @@ impl Layout2 {
         let mut off = arrays_at;
         for (k, a) in arrays.iter().enumerate() {
             let (first, count, delta) = if k == 0 {
-                (0u16, 256u16, d0)
+                (first0 as u16, count0 as u16, d0)
             } else {
                 let l = leads[k - 1];
                 (self.double[&l].0 as u16, a.len() as u16, self.deltas.get(&l).copied().unwrap_or(0))
